@@ -210,8 +210,8 @@ def build(term, ctx, path="r", batch=None):
     """Returns Built(op, dense).  `batch` = leaf batch shape requested for this subtree."""
     head, kw, subs = term[0], (term[1] if len(term) > 1 else {}), term[2:]
     batch = ctx.batch if batch is None else tuple(batch)
-    if "lb" in kw:  # explicit leaf batch (broadcasting variants)
-        batch = tuple(kw["lb"])
+    if "lb" in kw:  # explicit leaf batch (broadcasting variants); "ones": size-1 dimensions against the requested batch shape
+        batch = tuple(1 for _ in batch) if kw["lb"] == "ones" else tuple(kw["lb"])
     dt = ctx.dtype
 
     def sub(i, b=None):
@@ -496,6 +496,10 @@ def catalogue(n=3, include_rect=True):
         "Mul": ["Mul", {}, P, ["Toeplitz", {"n": n}]],
         "ConstMul": ["ConstMul", {"c": "pos"}, D(n)], "ConstMulNeg": ["ConstMul", {"c": "neg"}, P],
         "ConstMulPSD": ["ConstMul", {"c": "pos"}, P], "ConstMulBcast": ["ConstMul", {"c": "pos", "cb": "ones"}, D(n)],
+        # operands whose batch shapes only broadcast against each other (unbatched / size-1 batch dimensions next to a batched operand)
+        "SumBcast": ["Sum", {}, D(n), ["Toeplitz", {"n": n, "lb": []}]],
+        "AddedDiagBcast": ["AddedDiag", {}, P, ["Diag", {"n": n, "lb": "ones"}]],
+        "MatmulBcast": ["Matmul", {}, D(n), ["Dense", {"n": n, "m": n, "kind": "int", "lb": []}]],
         "BlockDiag": ["BlockDiag", {"k": 2}, P], "BlockDiagGen": ["BlockDiag", {"k": 2}, D(n)],
         "BlockDiag3": ["BlockDiag", {"k": 3}, D(2, kind="psd")],
         "BlockInterleaved": ["BlockInterleaved", {"k": 2}, P], "BlockInterleaved3": ["BlockInterleaved", {"k": 3}, D(3, kind="psd")],
